@@ -367,12 +367,12 @@ never put under a core guard. -/
 non-dispatched operations (barriers included) that the core executes after `dispatch-regions`, in order, are exactly
 those it executes in the function before the pass. No barrier is lost under a guard, none is executed twice, on
 any core. -/
-theorem barriers_survive_dispatch (f : Dispatch.Func) (nb core : Nat) (orc : Dispatch.Orc) (fuel entry : Nat)
+theorem barriers_survive_dispatch (r : Bool) (f : Dispatch.Func) (nb core : Nat) (orc : Dispatch.Orc) (fuel entry : Nat)
     (isBarrier : Dispatch.Leaf → Bool)
-    (hb : ∀ l, isBarrier l = true → Dispatch.dmOf l = false ∧ Dispatch.cpOf l = false) :
-    (Dispatch.runF core orc (Dispatch.dispatch true nb f) fuel entry).filter isBarrier =
+    (hb : ∀ l, isBarrier l = true → Dispatch.dmOf l = false ∧ Dispatch.cpOf r l = false) :
+    (Dispatch.runF core orc (Dispatch.dispatch r true nb f) fuel entry).filter isBarrier =
       (Dispatch.runF core orc f fuel entry).filter isBarrier := by
-  rw [SnaxVerif.C14.C14_dispatch f nb core orc fuel entry, List.filter_filter]
+  rw [SnaxVerif.C14.C14_dispatch r f nb core orc fuel entry, List.filter_filter]
   congr 1
   funext l
   cases h : isBarrier l with
@@ -382,21 +382,21 @@ theorem barriers_survive_dispatch (f : Dispatch.Func) (nb core : Nat) (orc : Dis
     simp [Dispatch.allowed, h1, h2]
 
 /-- two cores meet the same barriers when they follow the same path through the function before the pass -/
-theorem barriers_same_on_all_cores (f : Dispatch.Func) (nb c1 c2 : Nat) (orc : Dispatch.Orc) (fuel entry : Nat)
+theorem barriers_same_on_all_cores (r : Bool) (f : Dispatch.Func) (nb c1 c2 : Nat) (orc : Dispatch.Orc) (fuel entry : Nat)
     (isBarrier : Dispatch.Leaf → Bool)
-    (hb : ∀ l, isBarrier l = true → Dispatch.dmOf l = false ∧ Dispatch.cpOf l = false)
+    (hb : ∀ l, isBarrier l = true → Dispatch.dmOf l = false ∧ Dispatch.cpOf r l = false)
     (hsame : Dispatch.runF c1 orc f fuel entry = Dispatch.runF c2 orc f fuel entry) :
-    (Dispatch.runF c1 orc (Dispatch.dispatch true nb f) fuel entry).filter isBarrier =
-      (Dispatch.runF c2 orc (Dispatch.dispatch true nb f) fuel entry).filter isBarrier := by
-  rw [barriers_survive_dispatch f nb c1 orc fuel entry isBarrier hb,
-    barriers_survive_dispatch f nb c2 orc fuel entry isBarrier hb, hsame]
+    (Dispatch.runF c1 orc (Dispatch.dispatch r true nb f) fuel entry).filter isBarrier =
+      (Dispatch.runF c2 orc (Dispatch.dispatch r true nb f) fuel entry).filter isBarrier := by
+  rw [barriers_survive_dispatch r f nb c1 orc fuel entry isBarrier hb,
+    barriers_survive_dispatch r f nb c2 orc fuel entry isBarrier hb, hsame]
 
 /-- a barrier between a copy (DMA core) and a generic (compute core), three cores: every core executes it -/
 example :
     let f : Dispatch.Func := ⟨[], [⟨.cons (.leaf ⟨1, .copy, false⟩) (.cons (.leaf ⟨2, .other, false⟩)
       (.cons (.leaf ⟨3, .generic, true⟩) .nil)), .ret⟩]⟩
     ∀ core, core < 3 →
-      ((Dispatch.runF core (fun _ _ _ => []) (Dispatch.dispatch true 3 f) 1 0).filter
+      ((Dispatch.runF core (fun _ _ _ => []) (Dispatch.dispatch false true 3 f) 1 0).filter
         (fun l => l.kind == .other)).map (·.id) = [2] := by
   decide
 
